@@ -157,7 +157,7 @@ Definition run (x : sx) : sx :=
         end
       | _ => sx_id "badcase"
       end
-    else if bytes_eqb kind (bs "stream") || bytes_eqb kind (bs "load") || bytes_eqb kind (bs "incload") then any_sx
+    else if bytes_eqb kind (bs "stream") || bytes_eqb kind (bs "load") || bytes_eqb kind (bs "loadtext") || bytes_eqb kind (bs "incload") then any_sx
     else sx_id "badcase"
   | _ => sx_id "badcase"
   end.
